@@ -113,7 +113,7 @@ pub fn eval(j: &Job) -> Result<&'static str, (String, String)> {
 
 fn deviations(inst: &[PTok]) -> Vec<(Vec<PTok>, &'static str)> {
     let mut out = Vec::new();
-    let alts = [PTok::Num("1".into()), PTok::Num("1.5".into()), PTok::Num("70000".into()), PTok::Str("\"zz\"".into()), PTok::Ident("QQ".into()), PTok::Str("\"much too long\"".into())];
+    let alts = [PTok::Num("1".into()), PTok::Num("1.5".into()), PTok::Num("70000".into()), PTok::Str("\"zz\"".into()), PTok::Ident("QQ".into()), PTok::Str("\"much too long\"".into()), PTok::Num("3.5e38".into())];
     for i in 0..inst.len() {
         let mut d = inst.to_vec();
         d.remove(i);
